@@ -80,6 +80,13 @@ def ev_row(case, rec):
             rec.outcome('coords-bad')
         else:
             rec.outcome('ok-' + d['hemi'])
+        if case.get('kind', 'float') == 'float' and lat == int(lat) and d['lon'] == int(d['lon']) and case['prj'] != 'isg2' \
+                and (int(lat) + int(d['lon']) + case['zone']) % 5 == 0:
+            # whole-degree positions in every exact numeric spelling (Python int, numpy integers of every width, ...)
+            eo, po = cfg.ell_obj(case['ell']), PRJS[case['prj']]
+            cfg.scalar_forms_agree(rec, lambda la, lo, z: geo2grid(la, lo, z, eo, po), [lat, d['lon'], case['zone']], [0, 1, 2],
+                                   (d['hemi'], d['zone'], d['east'], d['north'], d['psf'], d['gc']), 'convert:geo2grid', one, co, 'geo2grid')
+            rec.outcome('numeric-forms')
         if case.get('kind', 'float') != 'float':
             st, r2 = rec.call(geo2grid, d['latf'], d['lonf'], case['zone'], ELLS[case['ell']], PRJS[case['prj']])
             got = (d['hemi'], d['zone'], d['east'], d['north'], d['psf'], d['gc'])
